@@ -70,11 +70,19 @@ def evaluate(src, pid, k, skip_tests, prop, offset=0):
             if os.path.exists(os.path.join(d, f)):
                 shutil.copy(os.path.join(d, f), os.path.join(keep, f))
         notes = open(os.path.join(d, "notes.md")).read() if os.path.exists(os.path.join(d, "notes.md")) else ""
+        prev = {}
+        if os.path.exists(os.path.join(keep, "meta.json")):
+            prev = json.load(open(os.path.join(keep, "meta.json")))
+        if "tests" not in res and prev.get("confirmed", {}).get("tests_with_change", "not re-run") != "not re-run":
+            res["tests"] = prev["confirmed"]["tests_with_change"]          # --skip-tests: keep the result confirmed earlier
+        first = prev.get("first_check_result") or (prev.get("check_result") if prev else None)
         meta = dict(id=sid, breaks_property=pid, needs_to_manifest=notes[:1500],
                     confirmed=dict(demo_exit_with_change=rc_d, demo_exit_without=rc_c, tests_with_change=res.get("tests", "not re-run")),
                     ran=[f"patch -p1 < patch.diff (scratch copy of /repo)", "demo.py with and without the change",
                          "pytest tests/ with the change", f"VERIF_REPO=<scratch> ./check {pid} --tier quick"],
                     check_result=dict(exit=rc, caught_by=obl))
+        if first and first != meta["check_result"]:
+            meta["first_check_result"] = first                                   # what the checks said before they were strengthened
         json.dump(meta, open(os.path.join(keep, "meta.json"), "w"), indent=1)
         return res
     except Exception as e:  # noqa: BLE001
